@@ -132,6 +132,24 @@ CHECKS = {
             "byte names, metadata files, five kinds of symlink members, nested and special members.",
             "Trusted: the harness's ZIP writer (vf/trees.py to_zip) and the extracted mirror.",
             "DESIGN.md §3 C16"),
+    "C14": ("exploration",
+            "runtime monitoring under stress: real server processes (threading and forking, TLS) with 16 clients in "
+            "flight, cache files removed/aged mid-burst, seeded yield injection via sys.monitoring LINE events in "
+            "pygopherd/shelve/dbm code; differential against a separate never-concurrent server process; /proc process "
+            "table for zombies; in-server audit log for observed overlaps",
+            "Held on the executions produced: 6 (quick) / 40 (thorough) fresh server processes x 200/600 mixed requests; "
+            "evidence reports cache-file opens and the reads/writes that fell within 5 ms of another worker's write.",
+            "Trusted: the sequential reference server; interleavings are sampled, not enumerated; the GIL excludes some "
+            "C-level races.",
+            "DESIGN.md §3 C14"),
+    "C20": ("fault_enumeration",
+            "runtime monitoring with fault injection: the connection's sendall fails at every write index of every "
+            "response kind with EPIPE / ECONNRESET / single-argument timeout; monitors on handle_error, log records, "
+            "/proc/self/fd and ResourceWarning",
+            "Enumerates (response kind x protocol view x error class x write index); all indices for responses of up "
+            "to 60 (quick) / 200 (thorough) writes.",
+            "Trusted: the faulty socket subclass; descriptors compared after gc.collect().",
+            "DESIGN.md §3 C20"),
 }
 
 NOT_YET = "check not built yet in this session (work in progress); see DESIGN.md §3 for the planned monitor"
